@@ -142,3 +142,171 @@ def run(rng, out, n):
             bad("evaluation-error", error=str(ex)[:200])
             continue
         out["fps"].add(fp(cfg))
+
+
+def run_composite(rng, out, n):
+    """Buffers on ports composed from slices of several IOPorts (slicing, `+`, `~`), with the buffer as a
+    sub-module or as the top-level design itself.  Every pad bit must be used by exactly one buffer cell bit (an
+    expression that lists a pad bit twice must be refused), the pad bit named by the composition must carry
+    o XOR inversion, and the fabric input must read that pad bit XOR inversion; pad bits outside the composition
+    stay untouched."""
+    from amaranth.hdl import Module, Signal, IOPort, DriverConflict
+    from amaranth.hdl._ir import PortDirection
+    from amaranth.back import rtlil
+    from amaranth.lib import io
+    for _ in range(n):
+        nio = rng.randrange(1, 4)
+        widths = [rng.randrange(1, 5) for _ in range(nio)]
+        overlap = rng.random() < 0.15
+        parts, used = [], set()
+        for _k in range(rng.randrange(1, 4)):
+            for _try in range(8):
+                p = rng.randrange(nio)
+                # slices that continue the bit numbering of the previous part are of particular interest
+                lo = parts[-1][2] if parts and rng.random() < 0.5 and parts[-1][2] < widths[p] else rng.randrange(widths[p])
+                hi = rng.randrange(lo + 1, widths[p] + 1)
+                bits = {(p, b) for b in range(lo, hi)}
+                if overlap or not (bits & used):
+                    parts.append([p, lo, hi, rng.random() < 0.4])
+                    used |= bits
+                    break
+        if not parts:
+            continue
+        listing = [(p, b, inv) for (p, lo, hi, inv) in parts for b in range(lo, hi)]
+        twice = len({(p, b) for p, b, _ in listing}) != len(listing)
+        bdir = rng.choice(["i", "o", "io"])
+        as_top = rng.random() < 0.5
+        cfg = {"kind": "composite-real-port", "io_widths": widths, "parts": parts, "buffer_dir": bdir, "buffer_is_top": as_top}
+        w = len(listing)
+        try:
+            iops = [IOPort(wd, name=f"pad{k}") for k, wd in enumerate(widths)]
+            port = None
+            for (p, lo, hi, inv) in parts:
+                piece = io.SingleEndedPort(iops[p], direction="io")[lo:hi]
+                if inv:
+                    piece = ~piece
+                port = piece if port is None else port + piece
+            buf = io.Buffer(bdir, port)
+            ports = {}
+            if as_top:
+                top = buf
+                if bdir in ("o", "io"):
+                    ports["o"], ports["oe"] = (buf.o, PortDirection.Input), (buf.oe, PortDirection.Input)
+                if bdir in ("i", "io"):
+                    ports["i"] = (buf.i, PortDirection.Output)
+            else:
+                top = Module()
+                top.submodules.buf = buf
+                o, oe, i = Signal(w, name="o"), Signal(name="oe"), Signal(w, name="i")
+                if bdir in ("o", "io"):
+                    top.d.comb += [buf.o.eq(o), buf.oe.eq(oe)]
+                    ports["o"], ports["oe"] = (o, PortDirection.Input), (oe, PortDirection.Input)
+                if bdir in ("i", "io"):
+                    top.d.comb += i.eq(buf.i)
+                    ports["i"] = (i, PortDirection.Output)
+            usedp = sorted({p for p, _, _ in listing})
+            for p in usedp:
+                ports[iops[p].name] = (iops[p], None)
+            try:
+                text = rtlil.convert(top, ports=ports, emit_src=False)
+                refused = False
+            except DriverConflict:
+                refused = True
+        except Exception as ex:
+            if exc_origin(ex) != "repo":
+                raise
+            out["violations"].append({"mechanism": f"real-port-conversion-exception:{type(ex).__name__}",
+                                      "detail": {"config": cfg, "exception": repr(ex)[:300]}})
+            continue
+        out["evaluations"] += 1
+        hk = "composite-real-port:" + bdir + (":top" if as_top else ":sub") + (":pad-bit-listed-twice" if twice else "")
+        out["hist"][hk] = out["hist"].get(hk, 0) + 1
+
+        def bad(mech, **kw):
+            out["violations"].append({"mechanism": "real-port-" + mech, "detail": dict(config=cfg, **kw)})
+        if refused:
+            if not twice:
+                bad("legal-composite-port-refused")
+            continue
+        out["extra"]["netlists_checked"] += 1
+        try:
+            doc = P.parse(text)
+        except P.ParseError as ex:
+            bad("rtlil-does-not-parse", error=str(ex)[:200])
+            continue
+        errs = K.check(doc, io_wires=tuple("\\" + iops[p].name for p in usedp))
+        if errs:
+            bad("structure:" + errs[0][0], message=errs[0][1])
+            continue
+        # every pad bit of the top module is used by at most one buffer cell bit
+        topm = doc.top()
+        padw = {"\\" + iops[p].name for p in usedp}
+        uses = {}
+        for mod in doc.modules.values():
+            for c in mod.cells.values():
+                if c.type == "$tribuf":
+                    for b in c.conns["Y"]:
+                        if b[0] == "w":
+                            uses[(mod.name, b[1], b[2])] = uses.get((mod.name, b[1], b[2]), 0) + 1
+        dup = sorted(k for k, v in uses.items() if v > 1)
+        if dup or twice:
+            bad("pad-bit-used-by-two-buffer-bits", uses=[list(map(str, d)) for d in dup[:4]], listed_twice_in_expression=twice)
+            continue
+        try:
+            ev = E.Evaluator(doc)
+        except E.EvalError as ex:
+            bad("evaluator-rejects", error=str(ex)[:200])
+            continue
+        try:
+            for rep in range(6):
+                ov, oev = rng.getrandbits(w), rng.getrandbits(1)
+                ext = [rng.getrandbits(wd) for wd in widths]
+                if bdir in ("o", "io"):
+                    ev.set("o", ov)
+                    ev.set("oe", oev)
+                if bdir in ("i", "io"):
+                    for p in usedp:
+                        ev.set(iops[p].name, ext[p])
+                ev.step()
+                stop = False
+                if bdir in ("o", "io"):
+                    for p in usedp:
+                        pv, px = ev.get(iops[p].name)
+                        for k, (pp, b, inv) in enumerate(listing):
+                            if pp != p or not oev:
+                                continue
+                            exp = ((ov >> k) & 1) ^ int(inv)
+                            if (px >> b) & 1 or (pv >> b) & 1 != exp:
+                                bad("composite-pad-bit-value", pad=iops[p].name, bit=b, buffer_bit=k, got=(pv >> b) & 1,
+                                    undefined=(px >> b) & 1, expected=exp, o=ov)
+                                stop = True
+                                break
+                        if stop:
+                            break
+                        if bdir == "o":
+                            # pad bits outside the composition are not driven by anything
+                            inside = {b for (pp, b, _) in listing if pp == p}
+                            for b in range(widths[p]):
+                                if b not in inside and not (px >> b) & 1:
+                                    bad("pad-bit-outside-the-port-is-driven", pad=iops[p].name, bit=b, value=(pv >> b) & 1)
+                                    stop = True
+                                    break
+                        if stop:
+                            break
+                if stop:
+                    break
+                if bdir in ("i", "io"):
+                    iv, ix = ev.get("i")
+                    for k, (p, b, inv) in enumerate(listing):
+                        exp = (ov >> k) & 1 if (bdir == "io" and oev) else ((ext[p] >> b) & 1) ^ int(inv)
+                        if (ix >> k) & 1 or (iv >> k) & 1 != exp:
+                            bad("composite-fabric-input-bit", buffer_bit=k, pad=iops[p].name, bit=b, got=(iv >> k) & 1,
+                                undefined=(ix >> k) & 1, expected=exp, pad_value=ext[p], o=ov, oe=oev)
+                            stop = True
+                            break
+                if stop:
+                    break
+        except E.EvalError as ex:
+            bad("evaluation-error", error=str(ex)[:200])
+            continue
+        out["fps"].add(fp(cfg))
